@@ -453,6 +453,8 @@ class SymRGB(tuple):
 
 class _IntMeta(type):
     def __instancecheck__(cls, obj):
+        if type(obj).__name__ == "SBV8":
+            return True
         if _isinstance(obj, SNum):
             return obj.is_int
         return _isinstance(obj, _int)
@@ -482,6 +484,8 @@ class SymInt(metaclass=_IntMeta):
 
 class _FloatMeta(type):
     def __instancecheck__(cls, obj):
+        if type(obj).__name__ == "SFP":
+            return True
         if _isinstance(obj, SNum):
             return not obj.is_int
         return _isinstance(obj, _float)
@@ -499,7 +503,13 @@ class SymFloat(metaclass=_FloatMeta):
         if _isinstance(x, str):
             v = cur().untoken(x)
             if v is not None:
+                if not _isinstance(v, SNum):
+                    return v.to_fp() if hasattr(v, "to_fp") else v
                 return SNum(v.real(), v.frac)
+        if hasattr(x, "to_fp"):
+            return x.to_fp()
+        if type(x).__name__ == "SFP":
+            return x
         return _float(x)
 
 
@@ -1306,6 +1316,8 @@ class Engine:
             self.tok_index[i] = tok
         return tok
 
+    token_for_obj = token_for
+
     def untoken(self, s):
         s2 = s.strip()
         neg = False
@@ -1317,7 +1329,9 @@ class Engine:
             if "§" in s2:
                 raise ValueError("could not convert string to float: %r" % (s,))
             return None
-        return -v if neg else v
+        if neg:
+            return -v
+        return v
 
     # -- exploration ----------------------------------------------------------------
     def explore(self, fn, on_path=None):
